@@ -187,6 +187,8 @@ def run_case(ck, desc):
 
     # ---- table route --------------------------------------------------------------------
     tab = tables.multiphase_from_desc(desc["table"])
+    if int(desc["phi"] * 1e4) % 7 == 0:
+        tables.probe_from_table_error_path(ck, desc, int(desc["phi"] * 1e6))
     P = np.asarray(tab["pressure"], dtype=float)
     cols = {k: np.asarray(tab[k], dtype=float) for k in tables.MP_COLS}
     Sw = desc["Sw"]
